@@ -77,7 +77,7 @@ def resolve_global(modname, name, depth=0):
 
 def find_function(qual):
     """'pkg.mod:Class.method' or 'pkg.mod:func' -> (Module, FunctionDef, ClassDef|None)."""
-    modname, path = qual.split(':')
+    modname, path = qual.split('#')[0].split(':')       # 'mod:Class.func#view' names a second contract of the same function
     m = module(modname)
     parts = path.split('.')
     if len(parts) == 1:
